@@ -7,7 +7,7 @@ open SoupVerif
 #print axioms C07.paths_le_work
 #print axioms C07.work_poly
 #print axioms C07.all_safe
-#print axioms C07.consts
+#print axioms C07.consts_closed
 #print axioms C07.tokenize_poly
 #print axioms C07.tokenize_poly_ascii
 #print axioms C07.tokenize_paths_poly
